@@ -264,15 +264,17 @@ func (g *Gen) Value(goType string, depth int, embedded bool) ap.Item {
 		g.SetField(v, f, depth)
 		set++
 	}
-	if idless && set == 0 {
-		// an embedded object without id must say something, otherwise it is "nothing"
-		if f, ok := FieldByName(st, "Name"); ok {
-			g.SetField(v, f, depth)
-		}
+	if idless {
+		// members of one list must be tellable apart (the statement: pairwise distinct ids); an embedded value without an id is
+		// identified by what it says: a link by its (unique) href, an object by a unique name
 		if goType == "Link" {
 			v.FieldByName("Href").SetString(string(g.ID("href")))
+		} else {
+			g.n++
+			v.FieldByName("Name").Set(reflect.ValueOf(ap.NaturalLanguageValues{{Ref: ap.NilLangRef, Value: ap.Content(fmt.Sprintf("anonymous %d %s", g.n, g.text()))}}))
 		}
 	}
+	_ = set
 	return p.Interface().(ap.Item)
 }
 
